@@ -58,6 +58,17 @@ class UserEntry(Entry):
         return len(self.fields)
 
 
+class SafeLibrary(Library):
+    """A user's subclass that hands out copies of the block list (so that callers cannot edit the library behind its
+    back): still a Library for every clause of the property."""
+
+    @property
+    def blocks(self):
+        return list(Library.blocks.fget(self))
+
+
+LIBCLS = [Library]  # (set per shard by the 'subclass' family, reset afterwards)
+
 # key texts: the universe's keys 'a' / 'b' may be swapped for texts that mean something to %-formats, templates and
 # regular expressions (set per shard by the 'keytext' family, reset afterwards)
 KEYMAP = {}
@@ -241,10 +252,10 @@ class World:
         self.model = Model()
         if init:
             blocks = [self.uni[n] for n in init]
-            self.lib = Library(blocks=blocks)
+            self.lib = LIBCLS[0](blocks=blocks)
             self.model.add(blocks, False)
         else:
-            self.lib = Library()
+            self.lib = LIBCLS[0]()
 
     def resolve(self, ref):
         """-> (argument for the real call, target for the model)"""
@@ -287,7 +298,7 @@ class World:
                 except Exception as e:
                     acc.violation(
                         {"oracle": "only_valueerror", "op": "add(iterable)", "exception": type(e).__name__},
-                        {"case": {"history": hist, "op": op, "tier_universe": list(self.uni), "keymap": dict(KEYMAP)}, "observed": repr(e), "expected": "the iterable's own exception"},
+                        {"case": {"history": hist, "op": op, "tier_universe": list(self.uni), "keymap": dict(KEYMAP), "library_class": LIBCLS[0].__name__}, "observed": repr(e), "expected": "the iterable's own exception"},
                         size=len(hist),
                     )
                     return False
@@ -297,7 +308,7 @@ class World:
                     kept = -1
                 else:
                     model.add([a, b][:kept], False)
-                case = {"history": hist, "op": op, "tier_universe": list(self.uni), "keymap": dict(KEYMAP)}
+                case = {"history": hist, "op": op, "tier_universe": list(self.uni), "keymap": dict(KEYMAP), "library_class": LIBCLS[0].__name__}
                 if kept < 0:
                     acc.violation({"oracle": "blocks_match_model", "op": "add"}, {"case": case, "observed": _show(lib), "expected": "a prefix of the iterable's blocks appended"}, size=len(hist))
                     return False
@@ -349,7 +360,7 @@ class World:
             raised = type(e).__name__
             acc.violation(
                 {"oracle": "only_valueerror", "op": kind, "exception": raised},
-                {"case": {"history": hist, "op": op, "tier_universe": list(self.uni), "keymap": dict(KEYMAP)}, "observed": f"{raised}: {e}", "expected": "ValueError or success"},
+                {"case": {"history": hist, "op": op, "tier_universe": list(self.uni), "keymap": dict(KEYMAP), "library_class": LIBCLS[0].__name__}, "observed": f"{raised}: {e}", "expected": "ValueError or success"},
                 size=len(hist),
             )
             return False
@@ -358,7 +369,7 @@ class World:
             ref()
         except ValueError:
             ref_raised = "ValueError"
-        case = {"history": hist, "op": op, "tier_universe": list(self.uni), "keymap": dict(KEYMAP)}
+        case = {"history": hist, "op": op, "tier_universe": list(self.uni), "keymap": dict(KEYMAP), "library_class": LIBCLS[0].__name__}
         opname = {"add": "add", "addl": "add", "rem": "remove", "reml": "remove", "rep": "replace"}[kind]
         if raised == "ValueError":
             after = canon(lib)
@@ -521,17 +532,18 @@ def explore(tier, seed, acc, procs):
 def shards(tier):
     U = names(tier)
     first_ops = [op for op in ops_for(tier, 0) if grows(op) <= maxlen(tier)]
-    return [("nodedup", i) for i in range(len(first_ops))] + [("foreign", i) for i in range(len(INITS))] + [("keytext", i, j) for i in range(len(KEYMAPS)) for j in range(len(INITS))]
+    return [("nodedup", i) for i in range(len(first_ops))] + [("foreign", i) for i in range(len(INITS))] + [("raising", i) for i in range(len(INITS))] + [("keytext", None, j) for j in range(len(INITS))] + [("keytext", i, j) for i in range(len(KEYMAPS)) for j in range(len(INITS))]
 
 
 def run_keytext(tier, km, init, acc):
     """The same library with keys that hold %-format, template and regular-expression characters: every history of two
     single-block operations from this initial state, judged like every other step."""
     global KEYMAP
-    KEYMAP = dict(KEYMAPS[km])
+    KEYMAP = dict(KEYMAPS[km]) if km is not None else {}
+    LIBCLS[0] = SafeLibrary if km is None else Library
     try:
         w0 = World(tier, init)
-        w0.judge(acc, {"history": [list(init)], "op": None, "tier_universe": names(tier), "keymap": km}, "init")
+        w0.judge(acc, {"history": [list(init)], "op": None, "tier_universe": names(tier), "keymap": km, "library_class": LIBCLS[0].__name__}, "init")
         n0 = len(w0.lib.blocks)
         # (add with the fail flag is left to the closure: its recorded finding F9 would flood these shards)
         single = lambda ops: [op for op in ops if op[0] in ("rem", "rep") or (op[0] == "add" and not op[2])]
@@ -539,7 +551,7 @@ def run_keytext(tier, km, init, acc):
             hist = [list(init)]
             w = build(tier, hist)
             acc.trace()
-            acc.case(nontrivial_key=("keytext", km, tuple(init), op1))
+            acc.case(nontrivial_key=("keytext", km if km is not None else -1, tuple(init), op1))
             acc.count("keytext_histories")
             if not w.apply(op1, acc, hist):
                 continue
@@ -552,11 +564,12 @@ def run_keytext(tier, km, init, acc):
                 h2 = hist + [list(op1)]
                 w2 = build(tier, h2)
                 acc.trace()
-                acc.case(nontrivial_key=("keytext", km, tuple(init), op1, op2))
+                acc.case(nontrivial_key=("keytext", km if km is not None else -1, tuple(init), op1, op2))
                 acc.count("keytext_histories")
                 w2.apply(op2, acc, h2)
     finally:
         KEYMAP = {}
+        LIBCLS[0] = Library
 
 
 def run_foreign(tier, init, acc):
@@ -587,7 +600,95 @@ def run_foreign(tier, init, acc):
             w2.apply(op2, acc, h2)
 
 
+def hostile_blocks():
+    """Blocks on which a call may well raise something other than ValueError (a key that cannot be hashed): what the call
+    does is not specified, that the library's views still describe one and the same library afterwards is
+    ('including calls that raise')."""
+    return {
+        "hE": lambda: Entry("article", ["unhashable"], [Field("t", "1")]),
+        "hS": lambda: String(["unhashable"], "x"),
+        "hE2": lambda: UserEntry("misc", {"k": 1}, []),
+    }
+
+
+def self_consistent(lib):
+    """The clauses of the property that need no reference model: each view against `blocks` of the same object."""
+    blocks = lib.blocks
+    # (not judged: one object held twice - a caller may add the same un-keyed block object twice)
+    ents = [b for b in blocks if isinstance(b, Entry)]
+    le = lib.entries
+    if len(le) != len(ents) or any(x is not y for x, y in zip(le, ents)):
+        return ("entries_are_the_entry_blocks_in_order", repr([getattr(e, "key", None) for e in le]))
+    strs = [b for b in blocks if isinstance(b, String)]
+    ed, sd = lib.entries_dict, lib.strings_dict
+    held = {id(b) for b in blocks}
+    if any(id(v) not in held for v in ed.values()) or any(id(v) not in held for v in sd.values()):
+        return ("dict_values_are_held_objects", "a dict value is not an element of blocks")
+    if sorted(map(id, ed.values())) != sorted(map(id, ents)) or any(k != v.key for k, v in ed.items()):
+        return ("entries_dict_maps_held_keys", f"{list(ed)} vs held {[e.key for e in ents]}")
+    if sorted(map(id, sd.values())) != sorted(map(id, strs)) or any(k != v.key for k, v in sd.items()):
+        return ("strings_dict_maps_held_keys", f"{list(sd)} vs held {[e.key for e in strs]}")
+    parts = lib.entries + lib.strings + lib.preambles + lib.comments + lib.failed_blocks
+    if sorted(map(id, parts)) != sorted(map(id, blocks)):
+        return ("views_partition_blocks", f"{len(parts)} in views, {len(blocks)} blocks")
+    return None
+
+
+def run_raising(tier, init, acc):
+    """One call that names a hostile block (add single / in a list at either end, replace of every held position, both
+    flags), then one ordinary call; after each, raised or not, the views are judged against `blocks` of the same object."""
+    H = hostile_blocks()
+    U = ["Ea2", "Sa2", "P"]
+    n0 = len(World(tier, init).lib.blocks)
+    firsts = [("add", h, f) for h in H for f in (False, True)]
+    firsts += [("addl", h, u, f) for h in H for u in U for f in (False, True)] + [("addl", u, h, f) for h in H for u in U for f in (False, True)]
+    firsts += [("rep", p, h, f) for p in range(n0) for h in H for f in (False, True)]
+    for op1 in firsts:
+        for op2 in [None, ("add", "Ea2", False), ("add", "Sa2", True), ("rem", 0), ("rep", 0, "P", True)]:
+            w = World(tier, init)
+            uni = dict(w.uni)
+            uni.update({k: f() for k, f in H.items()})
+            lib = w.lib
+            case = {"history": [list(init)], "raising": [list(op1), list(op2) if op2 else None], "tier_universe": names(tier)}
+            acc.trace()
+            acc.case(nontrivial_key=("raising", tuple(init), op1, op2))
+            acc.count("raising_histories")
+            outcome = []
+            for op in (op1, op2):
+                if op is None:
+                    continue
+                try:
+                    if op[0] == "add":
+                        lib.add(uni[op[1]], fail_on_duplicate_key=op[2])
+                    elif op[0] == "addl":
+                        lib.add([uni[op[1]], uni[op[2]]], fail_on_duplicate_key=op[3])
+                    elif op[0] == "rem":
+                        if lib.blocks:
+                            lib.remove(lib.blocks[0])
+                    elif op[0] == "rep":
+                        if op[1] < len(lib.blocks):
+                            lib.replace(lib.blocks[op[1]], uni[op[2]], fail_on_duplicate_key=op[3])
+                    outcome.append("ok")
+                except Exception as e:  # anything: the call is outside the reference model
+                    outcome.append(type(e).__name__)
+                bad = self_consistent(lib)
+                if bad is not None:
+                    acc.violation(
+                        {"oracle": bad[0], "op": op[0], "after": "a call that may raise anything (hostile block)", "raised": outcome[-1]},
+                        {"case": case, "observed": bad[1] + " | blocks=" + repr([_bk(b) for b in lib.blocks]), "expected": "every view describes `blocks` of the same library, whatever the call raised"},
+                        size=2,
+                    )
+                    break
+            acc.outcome(("raising", tuple(outcome)))
+
+
+def _bk(b):
+    return f"{type(b).__name__}:{getattr(b, 'key', '')!r}"
+
+
 def run_shard(shard, tier, acc):
+    if shard[0] == "raising":
+        return run_raising(tier, INITS[shard[1]], acc)
     if shard[0] == "foreign":
         return run_foreign(tier, INITS[shard[1]], acc)
     if shard[0] == "keytext":
@@ -631,15 +732,20 @@ def run_shard(shard, tier, acc):
 def replay(case, acc):
     global KEYMAP
     hist = case["history"]
+    if "raising" in case:
+        return run_raising("quick", tuple(hist[0]), acc)
     tier = "thorough" if "F" in case.get("tier_universe", []) else "quick"
-    km = case.get("keymap") or {}
+    km = case.get("keymap")
+    km = {} if km is None else km
     KEYMAP = dict(KEYMAPS[km]) if isinstance(km, int) else dict(km)
+    LIBCLS[0] = SafeLibrary if case.get("library_class") == "SafeLibrary" else Library
     try:
         w = build(tier, [tuple(hist[0])] + [_tup(o) for o in hist[1:]])
         if case.get("op") is not None:
             w.apply(_tup(case["op"]), acc, hist)
     finally:
         KEYMAP = {}
+        LIBCLS[0] = Library
 
 
 def unit_test(case):
